@@ -40,9 +40,21 @@ theorem RwView.wCore_refines {h : H} {s : Store} {R W F : Nat} {hdr D : List Byt
   simp only []
   have hlenNat : (((k * h.ch : Nat) : Int)).toNat = k * h.ch := Int.toNat_natCast _
   have htake : data.take (k * h.ch) = data := List.take_of_length_le (by omega)
-  have hpk : ∀ vals, peakUpdate { h with haveWritten := true } ty vals = none := fun vals =>
-    peakUpdate_none _ _ _ v.peak
-  rw [hlenNat, htake, hpk]
+  rw [hlenNat, htake]
+  generalize hpk : peakUpdate { h with haveWritten := true } ty data = pk'
+  have key : ∀ hh : H, hh.peak = h.peak → hh.ch = h.ch →
+      (peakUpdate hh ty data).map List.length = h.peak.map List.length := by
+    intro hh e1 e2
+    cases hp : h.peak with
+    | none => rw [hp] at e1; rw [peakUpdate_none _ _ _ e1]
+    | some ps =>
+      rw [hp] at e1
+      obtain ⟨ps', e, l⟩ := peakUpdate_some hh ty data ps e1 (by rw [e2]; exact (v.peak ps hp).1)
+      rw [e]
+      show some ps'.length = some ps.length
+      rw [l, e2, (v.peak ps hp).1]
+  have hpkl : pk'.map List.length = h.peak.map List.length := by
+    rw [← hpk]; exact key _ rfl rfl
   generalize henc : h.enc.encodeAll h.conv ty data = enc
   have hel : enc.length = k * h.bw := by
     rw [← henc, Enc.encodeAll_length, hdata]; unfold H.bw; rw [Nat.mul_assoc, Nat.mul_comm h.ch]
@@ -65,11 +77,11 @@ theorem RwView.wCore_refines {h : H} {s : Store} {R W F : Nat} {hdr D : List Byt
   generalize hS2 : ({ bytes := hdr ++ (writeAt D (W * h.bw) enc ++ zeros t'), pos := hdr.length + (W + k) * h.bw } : Store) = S2
   -- the handle before the automatic header update
   have vw : ∀ (fr : Int) (de : Int), fr = ((max F (W + k) : Nat) : Int) → (h.container ≠ .wav → de = 0) →
-      RwView { h with haveWritten := true, wpos := (W : Int) + (k : Int), lastOp := .w, peak := none, frames := fr, dataend := de }
+      RwView { h with haveWritten := true, wpos := (W : Int) + (k : Int), lastOp := .w, peak := pk', frames := fr, dataend := de }
         S2 R (W + k) (max F (W + k)) hdr (writeAt D (W * h.bw) enc) := by
     intro fr de hfr hde
     subst hS2
-    exact v.rebuild _ _ R (W + k) (max F (W + k)) hdr _ rfl rfl rfl rfl v.peak.symm hde rfl rfl rfl v.rpos
+    exact v.rebuild _ _ R (W + k) (max F (W + k)) hdr _ rfl rfl rfl rfl hpkl hde rfl rfl rfl v.rpos
       (by simp) hfr ⟨t', rfl, ht.mono (by omega)⟩ rfl hDl (by simp) (fun _ => rfl) (fun hc => by simp at hc)
   have habs : groups h.bw (writeAt D (W * h.bw) enc) =
       AbsFile.upTo (zeroFrame h.bw) (groups h.bw D) W ++ groups h.bw enc ++ (groups h.bw D).drop (W + k) :=
